@@ -340,26 +340,6 @@ def fnv_bytes(b):
     return h
 
 
-def first_diff(a, b, path=""):
-    """first position where two resolved item lists differ (for the report)"""
-    for i in range(max(len(a), len(b))):
-        if i >= len(a) or i >= len(b):
-            return "%sitem %d: %s" % (path, i, "only written: %r" % (a[i][:3],) if i < len(a) else "only read: %r" % (b[i][:3],))
-        x, y = a[i], b[i]
-        if x[0] != y[0]:
-            return "%sitem %d: written %r, read %r" % (path, i, x[:3], y[:3])
-        if x[0] == "prim":
-            if x[1:3] != y[1:3]:
-                return "%sitem %d: written as %s (%d bytes: %s), read as %s (%d bytes: %s)" % (path, i, x[1], x[2], x[4], y[1], y[2], y[4])
-        else:
-            if x[1] != y[1]:
-                return "%sloop %d: count written %r (%s), read %r (%s)" % (path, i, x[1], x[3], y[1], y[3])
-            d = first_diff(x[2], y[2], path + "loop %d / " % i)
-            if d:
-                return d
-    return None
-
-
 def translator(ctx):
     import gen_c09_schemas
     try:
@@ -382,7 +362,7 @@ def translator_oracles(ctx, info):
         # re-derive the two lists for the report
         for n in bad:
             ctx.violation("schema:write-read-mismatch:%s" % n,
-                          "%s: the items written by write_restart_file are not the items read by the restart constructor (%s)" % (n, info.get("diff", {}).get(n, "see Gen/RestartSchemas.lean: %s_write vs %s_read" % (g.lean_name(n), g.lean_name(n)))),
+                          "%s: the items written by write_restart_file are not the items read by the restart constructor (%s)" % (n, (info.get("diff", {}).get(n) or "see Gen/RestartSchemas.lean: %s_write vs %s_read" % (g.lean_name(n), g.lean_name(n)))),
                           {"class": n, "generated": "lean/CMacVerif/Gen/RestartSchemas.lean", "theorem": "schemas_match"})
     dc = {(c, lhs): (e, t) for (c, lhs, e, t) in info["derived"]["ctor"]}
     dr = {(c, lhs): (e, t) for (c, lhs, e, t) in info["derived"]["restart"]}
